@@ -51,7 +51,8 @@ def input_defaults(s, fields, r):
 
 class SchemaGen:
     def __init__(self, rng, n_obj=None, n_iface=None, n_union=None, n_enum=None, n_input=None, deprecations=0.0,
-                 id_lists=True, custom_roots=None, odd_type_names=False, args=True, own_deprecation=0.0, decoy_roots=None, narrowing=0.0):
+                 id_lists=True, custom_roots=None, odd_type_names=False, args=True, own_deprecation=0.0, decoy_roots=None, narrowing=0.0,
+                 unknown_member=False, underscore_types=False):
         self.rng = rng
         self.s = Schema()
         self.fcount = 0
@@ -72,8 +73,16 @@ class SchemaGen:
             objs[-1] = "snake_obj"
         if odd_type_names and n_obj >= 2:
             objs[0] = r.choice(["HTTPThing", "SMSMessage", "ObA", "dnsFailure"])
+        if unknown_member and n_obj >= 2:
+            # an object type that is literally called `Unknown` (legal; only meaningful to test with the other-variant option OFF,
+            # where the generator adds no variant of that name itself); made a member of every union and interface below
+            objs[1] = "Unknown"
+        if underscore_types and n_obj >= 2:
+            objs[-1] = "_Service"          # federation-style names: one leading underscore is an ordinary name
         ifaces = ["If%s" % chr(65 + i) for i in range(n_iface)]
         unions = ["Un%s" % chr(65 + i) for i in range(n_union)]
+        if underscore_types and n_union >= 1:
+            unions[-1] = "_Entity"
         enums = ["En%s" % chr(65 + i) for i in range(n_enum)]
         if odd_type_names and n_enum >= 2:
             enums[-1] = "color_kind"
@@ -81,6 +90,8 @@ class SchemaGen:
         if odd_type_names and n_input >= 2:
             inputs[-1] = "filter_input"
         scalars = r.sample(CUSTOM_SCALARS if odd_type_names else CUSTOM_SCALARS[:3], r.randint(1, 2))
+        if underscore_types:
+            scalars.append("_Any")
         for sc in scalars:
             s.add(sc, {"kind": "scalar"})
         for e in enums:
@@ -132,10 +143,14 @@ class SchemaGen:
             s.add(i, {"kind": "interface", "fields": self.rand_fields(r.randint(1, 3))})
         for o in objs:
             impl = [i for i in ifaces if r.random() < 0.6]
+            if unknown_member and o == "Unknown":
+                impl = list(ifaces)
             fields = []
             for i in impl:
                 fields += [self.own_copy(f) for f in s.types[i]["fields"]]
             fields += self.rand_fields(r.randint(1, 5), self_type=o)
+            if len(impl) > 1 and r.random() < 0.5:
+                impl = impl[::-1]          # `implements B & A` although A is declared first: the order of the clause is free
             s.add(o, {"kind": "object", "fields": fields, "implements": impl})
         for i in ifaces:
             if not s.possible(i):
@@ -143,7 +158,10 @@ class SchemaGen:
                 s.types[o]["implements"].append(i)
                 s.types[o]["fields"] = [self.own_copy(f) for f in s.types[i]["fields"]] + s.types[o]["fields"]
         for u in unions:
-            s.add(u, {"kind": "union", "members": r.sample(objs, r.randint(1, min(3, len(objs))))})
+            members = r.sample(objs, r.randint(1, min(3, len(objs))))
+            if unknown_member and "Unknown" in objs and "Unknown" not in members:
+                members.append("Unknown")
+            s.add(u, {"kind": "union", "members": members})
         custom = custom_roots if custom_roots is not None else (r.random() < 0.2)
         qn, mn, sn = ("RootQ", "RootM", "RootS") if custom else ("Query", "Mutation", "Subscription")
         s.add(qn, {"kind": "object", "fields": self.rand_fields(r.randint(3, 6), root=True), "implements": []})
